@@ -12,11 +12,11 @@ EXPLANATION = ("E2(a): Report.quality_profile_percentage is translated from its 
                "with the percentages as unbounded solver variables.")
 
 
-def build(B):
+def build(B, W=None):
     import z3
     from codelimit.common.report.Report import Report
     from vlib.py2smt import Translator, V
-    W = B + 10
+    W = W or B + 10
     T = Translator(W)
     f = T.function(Report.quality_profile_percentage)
     P = [z3.BitVec(f"p{i}", W) for i in range(4)]
@@ -60,7 +60,7 @@ def clauses_violated(p, shown):
 def run(ctx):
     B = 6 if ctx.quick() else 10
     ctx.functions += ["Report.quality_profile_percentage (AST -> QF_BVFP)", "format_text.print_summary", "format_markdown.print_summary", "SummaryTable.__init__"]
-    ctx.bounds = {"QF_BVFP": f"all profiles of four non-negative integers with total <= 2^{B}", "relaxation": "unbounded totals under the rounding-error assumption", "verdict": "all integer percentage tuples (unbounded)"}
+    ctx.bounds = {"QF_BVFP": f"all profiles of four non-negative integers with total <= 2^{B}; plus one risky category of 1..3 lines in an otherwise easy codebase of up to 300 000 lines (the 0.001 % clause)", "relaxation": "unbounded totals under the rounding-error assumption", "verdict": "all integer percentage tuples (unbounded)"}
     ctx.assumptions += ["CPython float semantics = IEEE-754 binary64 round-to-nearest-even; int/int true division is correctly rounded (exact here: operands < 2^53)",
                         "relaxation (b): the three float roundings at magnitude <= 128 perturb the value by less than 2^-40 in total", "S-fmt / S-ui for the verdict harness"]
     ctx.outside += [f"exact float behaviour for totals > 2^{B} (covered only by the relaxation)", "locale digit rendering"]
@@ -119,11 +119,18 @@ def run(ctx):
         s = base()
         s.add(c)
         queries.append((name, smt.to_smt2(s, "QF_BVFP"), [f"p{i}" for i in range(4)]))
+    # tiny shares in LARGE codebases (the 0.001 % clause is vacuous for totals <= 2^B): one risky category of 1..3 lines, everything else easy, totals up to 300 000
+    _z, W2, P2, (e2, v2, h2, u2) = build(B, 28)
+    for cat, shown in ((2, h2), (3, u2)):
+        s = z3.Solver()
+        s.add(P2[1] == 0, P2[5 - cat] == 0, P2[cat] >= 1, P2[cat] <= 3, P2[0] >= 0, P2[0] <= 300000)
+        s.add(z3.BitVecVal(100000, W2) * P2[cat] > P2[0] + P2[cat], shown == 0)
+        queries.append((f"tiny-share:{'hard' if cat == 2 else 'unmaintainable'}", smt.to_smt2(s, "QF_BVFP"), [f"p{i}" for i in range(4)]))
     TL = 250.0 if ctx.quick() else 2400.0
     res = smt.solve_all(queries, TL, ctx.nproc)
     for name, _, _ in queries:
         r = res[name]
-        ident = f"BVFP[B={B}]:{name}"
+        ident = f"BVFP[B={B}]:{name}" if not name.startswith("tiny-share") else f"BVFP[total<=300003]:{name}"
         ctx.extra.setdefault("queries_detail", []).append({"query": ident, "answers": r["answers"], "seconds": round(r["seconds"], 1)})
         if name.startswith("witness"):
             if r["verdict"] != "sat":
